@@ -5,7 +5,7 @@
         the single-set corollary.  See DESIGN.md for what remains assumed. *)
 From Coq Require Import Reals List ZArith.
 From Coquelicot Require Import Coquelicot.
-From PMH Require Import Lib.ListArr Model.ProbMinHash Proofs.ProbMinHash Gen.PmhFormulas Proofs.PmhLaw.
+From PMH Require Import Lib.ListArr Model.ProbMinHash Proofs.ProbMinHash Gen.PmhFormulas Proofs.PmhLaw Model.Estimators Gen.EstPmh Proofs.Estimators.
 Import ListNotations.
 
 (* (i) *)
@@ -49,6 +49,11 @@ Proof. exact race_limit. Qed.
 Theorem C01_single_set : forall wd rest, 0 < wd -> 0 <= rest -> 1 / (1 + rest / wd) = wd / (wd + rest).
 Proof. exact single_set_probability. Qed.
 
+(* jaccard::compute_probminhash_jaccard (regenerated shape): on equal lengths exactly (number of equal positions, length) *)
+Theorem C01_estimator_is_match_fraction : forall a b, length a = length b ->
+  est_run est_jaccard_compute_probminhash_jaccard a b = EstOk (count_eq a b) (length a).
+Proof. exact (fun a b H => est_exact est_jaccard_compute_probminhash_jaccard a b (eq_refl true) H). Qed.
+
 Print Assumptions C01_signature_is_argmin.
 Print Assumptions C01_pmh3_reaches_final.
 Print Assumptions C01_pmh3a_reaches_final.
@@ -59,3 +64,4 @@ Print Assumptions C01_beta_spacing.
 Print Assumptions C01_race_integral.
 Print Assumptions C01_race_limit.
 Print Assumptions C01_single_set.
+Print Assumptions C01_estimator_is_match_fraction.
